@@ -18,6 +18,7 @@ pub open spec fn s_ok(s: String) -> bool {
 }
 
 /// concatenation of the encodings of the elements, in order
+#[verifier::opaque]
 pub open spec fn enc_seq<T>(s: Seq<T>, f: spec_fn(T) -> Seq<u8>) -> Seq<u8>
     decreases s.len(),
 {
@@ -32,7 +33,15 @@ pub proof fn lemma_enc_seq_push<T>(s: Seq<T>, x: T, f: spec_fn(T) -> Seq<u8>)
     ensures
         enc_seq(s.push(x), f) == enc_seq(s, f) + f(x),
 {
+    reveal_with_fuel(enc_seq, 2);
     assert(s.push(x).drop_last() == s);
+}
+
+pub proof fn lemma_enc_seq_empty<T>(f: spec_fn(T) -> Seq<u8>)
+    ensures
+        enc_seq(Seq::<T>::empty(), f) == Seq::<u8>::empty(),
+{
+    reveal_with_fuel(enc_seq, 2);
 }
 
 pub proof fn lemma_enc_seq_step<T>(s: Seq<T>, i: int, f: spec_fn(T) -> Seq<u8>)
@@ -41,6 +50,7 @@ pub proof fn lemma_enc_seq_step<T>(s: Seq<T>, i: int, f: spec_fn(T) -> Seq<u8>)
     ensures
         enc_seq(s.subrange(0, i + 1), f) == enc_seq(s.subrange(0, i), f) + f(s[i]),
 {
+    reveal_with_fuel(enc_seq, 2);
     assert(s.subrange(0, i + 1).drop_last() == s.subrange(0, i));
 }
 
@@ -116,15 +126,18 @@ pub open spec fn opt_common_content_ok(c: Option<CommonContent>) -> bool {
     }
 }
 
+#[verifier::opaque]
 pub open spec fn enc_done_data(d: DoneData) -> Seq<u8> {
     enc_opt_common_content(d.content) + enc_parameters(d.params)
 }
 
+#[verifier::opaque]
 pub open spec fn done_data_ok(d: DoneData) -> bool {
     opt_common_content_ok(d.content) && params_ok(params_seq(d.params))
 }
 
 // ---- Invoke ----------------------------------------------------------------------------------
+#[verifier::opaque]
 pub open spec fn enc_invoke(i: Invoke) -> Seq<u8> {
     enc_str(sb(i.invoke_id))
         + (if i.invoke_id@.len() == 0 { enc_str(sb(i.parent_state_name)) } else { Seq::<u8>::empty() })
@@ -138,6 +151,7 @@ pub open spec fn enc_invoke(i: Invoke) -> Seq<u8> {
         + enc_list(i.name_list@, f_str())
 }
 
+#[verifier::opaque]
 pub open spec fn invoke_ok(i: Invoke) -> bool {
     s_ok(i.invoke_id) && (i.invoke_id@.len() == 0 ==> s_ok(i.parent_state_name))
         && data_encodable(i.src_expr) && data_encodable(i.src) && data_encodable(i.type_expr) && data_encodable(i.type_name)
@@ -162,6 +176,7 @@ pub open spec fn transition_flags(t: Transition) -> u8 {
         + (if t.content != 0 { 8int } else { 0int })) as u8
 }
 
+#[verifier::opaque]
 pub open spec fn enc_transition(t: Transition) -> Seq<u8> {
     enc_uint(t.id as u64) + enc_uint(t.doc_id as u64) + enc_uint(t.source as u64)
         + enc_list(t.target@, f_id())
@@ -184,6 +199,7 @@ pub open spec fn history_type_ordinal(h: HistoryType) -> u8 {
     }
 }
 
+#[verifier::opaque]
 pub open spec fn state_flags(s: State) -> u16 {
     (history_type_ordinal(s.history_type) as int
         + (if s.onentry@.len() == 0 { 0int } else { 0x04int })
@@ -193,17 +209,13 @@ pub open spec fn state_flags(s: State) -> u16 {
         + (if s.is_parallel { 0x40int } else { 0int })
         + (if s.donedata.is_some() { 0x80int } else { 0int })
         + (if s.invoke.data@.len() > 0 { 0x100int } else { 0int })
-        + (if data_map_len(s.data) != 0 { 0x200int } else { 0int })
+        + (if s.data@.len() != 0 { 0x200int } else { 0int })
         + (if s.history.data@.len() > 0 { 0x400int } else { 0int })) as u16
-}
-
-/// number of entries of a state's <data> map
-pub open spec fn data_map_len(m: HashMap<String, DataArc>) -> nat {
-    m@.len()
 }
 
 /// the pairs of a data map in the order the writer iterated it (HashMap iteration order is unspecified; the reader
 /// inserts the pairs into a map again, so every such order is the same record)
+#[verifier::opaque]
 pub open spec fn map_order(m: Map<String, DataArc>, order: Seq<(String, DataArc)>) -> bool {
     order.len() == m.len() && order.no_duplicates()
         && forall|i: int| 0 <= i < order.len() ==> m.contains_key((#[trigger] order[i]).0) && m[order[i].0] == order[i].1
@@ -235,14 +247,33 @@ pub open spec fn enc_state_head(s: State) -> Seq<u8> {
         + (if s.history.data@.len() > 0 { enc_list(s.history.data@, f_id()) } else { Seq::<u8>::empty() })
 }
 
+pub open spec fn enc_opt_done_data(o: Option<DoneData>) -> Seq<u8> {
+    match o {
+        Some(d) => enc_done_data(d),
+        None => Seq::<u8>::empty(),
+    }
+}
+
+pub open spec fn opt_done_data_ok(o: Option<DoneData>) -> bool {
+    match o {
+        Some(d) => done_data_ok(d),
+        None => true,
+    }
+}
+
 pub open spec fn enc_state_tail(s: State) -> Seq<u8> {
     enc_uint(s.parent as u64)
-        + (match s.donedata { Some(d) => enc_done_data(d), None => Seq::<u8>::empty() })
+        + enc_opt_done_data(s.donedata)
+}
+
+/// the whole state record, for one iteration order of the <data> map
+pub open spec fn enc_state(s: State, order: Seq<(String, DataArc)>) -> Seq<u8> {
+    enc_state_head(s) + (if s.data@.len() != 0 { enc_list(order, f_pair()) } else { Seq::<u8>::empty() }) + enc_state_tail(s)
 }
 
 pub open spec fn state_ok(s: State) -> bool {
     s_ok(s.name) && invokes_ok(s.invoke.data@)
-        && (match s.donedata { Some(d) => done_data_ok(d), None => true })
+        && opt_done_data_ok(s.donedata)
 }
 
 // ---- executable content ----------------------------------------------------------------------
@@ -267,6 +298,7 @@ pub open spec fn enc_for_each(e: ForEach) -> Seq<u8> {
 }
 
 /// the state name is part of the record when an id is generated from it (idlocation set)
+#[verifier::opaque]
 pub open spec fn enc_send(e: SendParameters) -> Seq<u8> {
     enc_str(sb(e.name)) + enc_data(e.target) + enc_data(e.target_expr)
         + enc_opt_common_content(e.content)
@@ -278,6 +310,7 @@ pub open spec fn enc_send(e: SendParameters) -> Seq<u8> {
         + enc_uint(e.delay_ms) + enc_data(e.delay_expr)
 }
 
+#[verifier::opaque]
 pub open spec fn send_ok(e: SendParameters) -> bool {
     s_ok(e.name) && data_encodable(e.target) && data_encodable(e.target_expr) && opt_common_content_ok(e.content)
         && strs_ok(e.name_list@) && s_ok(e.name_location) && (e.name_location@.len() != 0 ==> s_ok(e.parent_state_name))
@@ -322,4 +355,179 @@ pub mod seq_axioms {
     {
         assert((a + Seq::<T>::empty()) =~= a);
     }
+}
+
+/// the writer's bit-or of the flag terms is the sum state_flags (the bits are disjoint)
+pub proof fn lemma_state_flags(s: State, flags: u16)
+    requires
+        flags == (history_type_ordinal(s.history_type) as u16
+            | (if s.onentry@.len() == 0 { 0u16 } else { 0x04u16 })
+            | (if s.onexit@.len() == 0 { 0u16 } else { 0x08u16 })
+            | (if s.states@.len() != 0 { 0x10u16 } else { 0u16 })
+            | (if s.is_final { 0x20u16 } else { 0u16 })
+            | (if s.is_parallel { 0x40u16 } else { 0u16 })
+            | (if s.donedata.is_some() { 0x80u16 } else { 0u16 })
+            | (if s.invoke.data@.len() > 0 { 0x100u16 } else { 0u16 })
+            | (if s.data@.len() != 0 { 0x200u16 } else { 0u16 })
+            | (if s.history.data@.len() > 0 { 0x400u16 } else { 0u16 })),
+    ensures
+        flags == state_flags(s),
+{
+    reveal(state_flags);
+    let h: u16 = history_type_ordinal(s.history_type) as u16;
+    let a: u16 = if s.onentry@.len() == 0 { 0u16 } else { 0x04u16 };
+    let b: u16 = if s.onexit@.len() == 0 { 0u16 } else { 0x08u16 };
+    let c: u16 = if s.states@.len() != 0 { 0x10u16 } else { 0u16 };
+    let d: u16 = if s.is_final { 0x20u16 } else { 0u16 };
+    let e: u16 = if s.is_parallel { 0x40u16 } else { 0u16 };
+    let f: u16 = if s.donedata.is_some() { 0x80u16 } else { 0u16 };
+    let g: u16 = if s.invoke.data@.len() > 0 { 0x100u16 } else { 0u16 };
+    let i: u16 = if s.data@.len() != 0 { 0x200u16 } else { 0u16 };
+    let j: u16 = if s.history.data@.len() > 0 { 0x400u16 } else { 0u16 };
+    assert((h | a | b | c | d | e | f | g | i | j) == h + a + b + c + d + e + f + g + i + j) by (bit_vector)
+        requires h <= 2 && (a == 0 || a == 0x04) && (b == 0 || b == 0x08) && (c == 0 || c == 0x10) && (d == 0 || d == 0x20)
+            && (e == 0 || e == 0x40) && (f == 0 || f == 0x80) && (g == 0 || g == 0x100) && (i == 0 || i == 0x200) && (j == 0 || j == 0x400);
+}
+
+/// sequential composition of two record posts
+pub proof fn lemma_compose(ok0: bool, out0: Seq<u8>, ok1: bool, out1: Seq<u8>, ok2: bool, out2: Seq<u8>, e1: bool, b1: Seq<u8>, e2: bool, b2: Seq<u8>)
+    requires
+        rec_post(ok0, out0, ok1, out1, e1, b1),
+        rec_post(ok1, out1, ok2, out2, e2, b2),
+    ensures
+        rec_post(ok0, out0, ok2, out2, e1 && e2, b1 + b2),
+{
+    broadcast use seq_axioms::lemma_add_assoc;
+}
+
+pub proof fn lemma_map_order_empty(m: Map<String, DataArc>)
+    requires
+        m.len() == 0,
+    ensures
+        map_order(m, Seq::empty()),
+{
+    reveal(map_order);
+}
+
+/// the iteration order write_data_map used (it exists by write_data_map's postcondition)
+#[verifier::opaque]
+pub open spec fn data_order(ok0: bool, out0: Seq<u8>, ok1: bool, out1: Seq<u8>, m: Map<String, DataArc>) -> Seq<(String, DataArc)> {
+    choose|order: Seq<(String, DataArc)>| map_order(m, order) && rec_post(ok0, out0, ok1, out1, pairs_ok(order), enc_list(order, f_pair()))
+}
+
+pub proof fn lemma_data_order(ok0: bool, out0: Seq<u8>, ok1: bool, out1: Seq<u8>, m: Map<String, DataArc>)
+    requires
+        exists|order: Seq<(String, DataArc)>| map_order(m, order) && rec_post(ok0, out0, ok1, out1, pairs_ok(order), enc_list(order, f_pair())),
+    ensures
+        map_order(m, data_order(ok0, out0, ok1, out1, m)),
+        rec_post(ok0, out0, ok1, out1, pairs_ok(data_order(ok0, out0, ok1, out1, m)), enc_list(data_order(ok0, out0, ok1, out1, m), f_pair())),
+{
+    reveal(data_order);
+}
+
+// ---- write_state / read_state proof structure: the state record as a sequence of 10 sections ----------------
+pub open spec fn st_sec(s: State, k: int) -> Seq<u8> {
+    if k == 1 {
+        enc_uint(s.id as u64) + enc_uint(s.doc_id as u64) + enc_str(sb(s.name)) + enc_uint(state_flags(s) as u64)
+    } else if k == 2 {
+        if s.states@.len() != 0 { enc_uint(s.initial as u64) + enc_list(s.states@, f_id()) } else { Seq::<u8>::empty() }
+    } else if k == 3 {
+        if s.onentry@.len() != 0 { enc_list(s.onentry@, f_id()) } else { Seq::<u8>::empty() }
+    } else if k == 4 {
+        if s.onexit@.len() != 0 { enc_list(s.onexit@, f_id()) } else { Seq::<u8>::empty() }
+    } else if k == 5 {
+        enc_list(s.transitions.data@, f_id())
+    } else if k == 6 {
+        if s.invoke.data@.len() > 0 { enc_list(s.invoke.data@, f_invoke()) } else { Seq::<u8>::empty() }
+    } else if k == 7 {
+        if s.history.data@.len() > 0 { enc_list(s.history.data@, f_id()) } else { Seq::<u8>::empty() }
+    } else if k == 9 {
+        enc_uint(s.parent as u64)
+    } else {
+        enc_opt_done_data(s.donedata)
+    }
+}
+
+pub open spec fn st_ok(s: State, k: int) -> bool {
+    if k == 1 {
+        s_ok(s.name)
+    } else if k == 6 {
+        invokes_ok(s.invoke.data@)
+    } else if k == 10 {
+        opt_done_data_ok(s.donedata)
+    } else {
+        true
+    }
+}
+
+/// section 8: the <data> map in iteration order `order`
+pub open spec fn st_data(s: State, order: Seq<(String, DataArc)>) -> Seq<u8> {
+    if s.data@.len() != 0 { enc_list(order, f_pair()) } else { Seq::<u8>::empty() }
+}
+
+pub open spec fn st_data_ok(s: State, order: Seq<(String, DataArc)>) -> bool {
+    s.data@.len() != 0 ==> pairs_ok(order)
+}
+
+/// what write_state guarantees, for the iteration order `order` of the <data> map
+pub open spec fn state_post(ok0: bool, out0: Seq<u8>, ok1: bool, out1: Seq<u8>, s: State, order: Seq<(String, DataArc)>) -> bool {
+    map_order(s.data@, order)
+        && rec_post(ok0, out0, ok1, out1, state_ok(s) && (s.data@.len() != 0 ==> pairs_ok(order)), enc_state(s, order))
+}
+
+/// the ten section posts compose to the record post
+pub proof fn lemma_state_sections(s: State, order: Seq<(String, DataArc)>, ok0: bool, o0: Seq<u8>, ok1: bool, o1: Seq<u8>, ok2: bool, o2: Seq<u8>, ok3: bool, o3: Seq<u8>, ok4: bool, o4: Seq<u8>, ok5: bool, o5: Seq<u8>, ok6: bool, o6: Seq<u8>, ok7: bool, o7: Seq<u8>, ok8: bool, o8: Seq<u8>, ok9: bool, o9: Seq<u8>, ok10: bool, o10: Seq<u8>)
+    requires
+        map_order(s.data@, order),
+        rec_post(ok0, o0, ok1, o1, st_ok(s, 1), st_sec(s, 1)),
+        rec_post(ok1, o1, ok2, o2, st_ok(s, 2), st_sec(s, 2)),
+        rec_post(ok2, o2, ok3, o3, st_ok(s, 3), st_sec(s, 3)),
+        rec_post(ok3, o3, ok4, o4, st_ok(s, 4), st_sec(s, 4)),
+        rec_post(ok4, o4, ok5, o5, st_ok(s, 5), st_sec(s, 5)),
+        rec_post(ok5, o5, ok6, o6, st_ok(s, 6), st_sec(s, 6)),
+        rec_post(ok6, o6, ok7, o7, st_ok(s, 7), st_sec(s, 7)),
+        rec_post(ok7, o7, ok8, o8, st_data_ok(s, order), st_data(s, order)),
+        rec_post(ok8, o8, ok9, o9, st_ok(s, 9), st_sec(s, 9)),
+        rec_post(ok9, o9, ok10, o10, st_ok(s, 10), st_sec(s, 10)),
+    ensures
+        state_post(ok0, o0, ok10, o10, s, order),
+{
+    let c = |k: int| if k == 8 { st_data(s, order) } else { st_sec(s, k) };
+    let e = |k: int| if k == 8 { st_data_ok(s, order) } else { st_ok(s, k) };
+    lemma_compose(ok0, o0, ok1, o1, ok2, o2, e(1), c(1), e(2), c(2));
+    lemma_compose(ok0, o0, ok2, o2, ok3, o3, e(1) && e(2), c(1) + c(2), e(3), c(3));
+    lemma_compose(ok0, o0, ok3, o3, ok4, o4, e(1) && e(2) && e(3), c(1) + c(2) + c(3), e(4), c(4));
+    lemma_compose(ok0, o0, ok4, o4, ok5, o5, e(1) && e(2) && e(3) && e(4), c(1) + c(2) + c(3) + c(4), e(5), c(5));
+    lemma_compose(ok0, o0, ok5, o5, ok6, o6, e(1) && e(2) && e(3) && e(4) && e(5), c(1) + c(2) + c(3) + c(4) + c(5), e(6), c(6));
+    lemma_compose(ok0, o0, ok6, o6, ok7, o7, e(1) && e(2) && e(3) && e(4) && e(5) && e(6), c(1) + c(2) + c(3) + c(4) + c(5) + c(6), e(7), c(7));
+    assert(c(1) + c(2) + c(3) + c(4) + c(5) + c(6) + c(7) == enc_state_head(s));
+    lemma_compose(ok0, o0, ok7, o7, ok8, o8, e(1) && e(2) && e(3) && e(4) && e(5) && e(6) && e(7), enc_state_head(s), e(8), c(8));
+    lemma_compose(ok8, o8, ok9, o9, ok10, o10, e(9), c(9), e(10), c(10));
+    assert(c(9) + c(10) == enc_state_tail(s));
+    lemma_compose(ok0, o0, ok8, o8, ok10, o10, e(1) && e(2) && e(3) && e(4) && e(5) && e(6) && e(7) && e(8), enc_state_head(s) + c(8), e(9) && e(10), enc_state_tail(s));
+}
+
+pub proof fn lemma_sum4(o: Seq<u8>, a: Seq<u8>, b: Seq<u8>, c: Seq<u8>, d: Seq<u8>)
+    ensures
+        (((o + a) + b) + c) + d == o + (((a + b) + c) + d),
+{
+    assert((((o + a) + b) + c) + d =~= o + (((a + b) + c) + d));
+}
+
+pub proof fn lemma_pre1(o: Seq<u8>, n: Seq<u8>, e: Seq<u8>)
+    requires
+        e == Seq::<u8>::empty(),
+    ensures
+        o + n == o + (n + e),
+{
+    assert(n + e =~= n);
+}
+
+pub proof fn lemma_pre2(o: Seq<u8>, i: Seq<u8>, n: Seq<u8>, e: Seq<u8>)
+    requires
+        e == Seq::<u8>::empty(),
+    ensures
+        (o + i) + n == o + (i + (n + e)),
+{
+    assert((o + i) + n =~= o + (i + (n + e)));
 }
